@@ -231,21 +231,13 @@ Section IsGG.
   Qed.
 
   (* errors.Is between two valid gerror values decides "same originating factory" *)
-  Lemma errors_is_gg va vb i j :
+  (* the loop of errors.Is on two gerror values, for any fuel of at least 4 *)
+  Lemma loop_gg va vb i j n :
     gv st va = Some i -> gv st vb = Some j ->
-    errors_is_gen guard st va vb = Ok (Nat.eqb (origin st i) (origin st j)).
+    errors_is_loop guard (S (S (S (S n)))) st va vb true = Ok (Nat.eqb (origin st i) (origin st j)).
   Proof.
     intros Ga Gb.
     destruct (gv_cell _ _ _ Ga) as [ci [Ei Aa]]. destruct (gv_cell _ _ _ Gb) as [cj [Ej Ab]].
-    unfold errors_is_gen.
-    assert (Na : is_nil va = false) by (destruct va; simpl in Aa; try discriminate; reflexivity).
-    assert (Nb : is_nil vb = false) by (destruct vb; simpl in Ab; try discriminate; reflexivity).
-    assert (Cb : comparable vb = true) by (destruct vb; simpl in Ab; try discriminate; reflexivity).
-    rewrite Na, Nb, Cb. simpl orb. cbv iota.
-    unfold is_fuel.
-    replace (4 + length st + val_depth va + val_depth vb)
-      with (S (S (S (S (length st + val_depth va + val_depth vb))))) by lia.
-    generalize (length st + val_depth va + val_depth vb). intros n.
     rewrite loop_S, Aa.
     (* err == target *)
     assert (Heq : iface_eq va vb = Ok false \/ (iface_eq va vb = Ok true /\ i = j)).
@@ -293,6 +285,62 @@ Section IsGG.
         * destruct (F2 eq_refl) as [Hne'|[cj' [Ej' [Fj' [_ Hoj]]]]].
           -- apply Nat.eqb_neq in Hne'. rewrite Hne'. reflexivity.
           -- rewrite (origin_root st j cj' Ej' Fj'). apply Nat.eqb_neq in Hoj. rewrite Hoj. reflexivity.
+  Qed.
+
+  Lemma errors_is_gg va vb i j :
+    gv st va = Some i -> gv st vb = Some j ->
+    errors_is_gen guard st va vb = Ok (Nat.eqb (origin st i) (origin st j)).
+  Proof.
+    intros Ga Gb.
+    destruct (gv_cell _ _ _ Ga) as [ci [Ei Aa]]. destruct (gv_cell _ _ _ Gb) as [cj [Ej Ab]].
+    unfold errors_is_gen.
+    assert (Na : is_nil va = false) by (destruct va; simpl in Aa; try discriminate; reflexivity).
+    assert (Nb : is_nil vb = false) by (destruct vb; simpl in Ab; try discriminate; reflexivity).
+    assert (Cb : comparable vb = true) by (destruct vb; simpl in Ab; try discriminate; reflexivity).
+    rewrite Na, Nb, Cb. simpl orb. cbv iota.
+    unfold is_fuel.
+    replace (4 + length st + val_depth va + val_depth vb)
+      with (S (S (S (S (length st + val_depth va + val_depth vb))))) by lia.
+    apply loop_gg; assumption.
+  Qed.
+
+  (* the gerror value a foreign error wraps, through any number of %w wrappers *)
+  Fixpoint inner_gv (v : val) : option nat :=
+    match v with
+    | VF _ _ _ u => inner_gv u
+    | VNil => None
+    | _ => gv st v
+    end.
+
+  Lemma loop_wrapped vb j : gv st vb = Some j ->
+    forall va i n, inner_gv va = Some i -> val_depth va <= n ->
+    errors_is_loop guard (S (S (S (S n)))) st va vb true = Ok (Nat.eqb (origin st i) (origin st j)).
+  Proof.
+    intros Gb. induction va as [|k|k|t c p u IH]; intros i n Hi Hd; simpl in Hi; try discriminate.
+    - apply loop_gg; assumption.
+    - apply loop_gg; assumption.
+    - rewrite loop_S. cbn [as_gerror unwrap_val].
+      assert (Hne : iface_eq (VF t c p u) vb = Ok false).
+      { destruct vb; simpl in Gb; try discriminate; reflexivity. }
+      rewrite Hne. cbn [bind_true].
+      simpl in Hd. destruct n as [|n]; [lia|].
+      destruct u; simpl in Hi; try discriminate; apply IH; (exact Hi || simpl in *; lia).
+  Qed.
+
+  (* errors.Is(wrapper of a gerror value, gerror value) = errors.Is(the wrapped value, ...) *)
+  Lemma errors_is_wrapped va vb i j :
+    inner_gv va = Some i -> gv st vb = Some j ->
+    errors_is_gen guard st va vb = Ok (Nat.eqb (origin st i) (origin st j)).
+  Proof.
+    intros Hi Gb. destruct (gv_cell _ _ _ Gb) as [cj [Ej Ab]].
+    unfold errors_is_gen.
+    assert (Na : is_nil va = false) by (destruct va; simpl in Hi; try discriminate; reflexivity).
+    assert (Nb : is_nil vb = false) by (destruct vb; simpl in Ab; try discriminate; reflexivity).
+    assert (Cb : comparable vb = true) by (destruct vb; simpl in Ab; try discriminate; reflexivity).
+    rewrite Na, Nb, Cb. simpl orb. cbv iota. unfold is_fuel.
+    replace (4 + length st + val_depth va + val_depth vb)
+      with (S (S (S (S (length st + val_depth va + val_depth vb))))) by lia.
+    apply (loop_wrapped vb j Gb); [exact Hi|lia].
   Qed.
 End IsGG.
 
